@@ -6,6 +6,7 @@ import SkfemVerif.Drv.Poly
 import SkfemVerif.Drv.Integration
 import SkfemVerif.Drv.MeshIO
 import SkfemVerif.Drv.Conformity
+import SkfemVerif.Drv.Surgery
 /-
 Registry of driver ops contributed by the per-area files: add an import and `++ xxxOps`.
 -/
@@ -13,6 +14,6 @@ open Lean
 namespace Drv
 
 def allOps : List (String × (Json → Option Json)) :=
-  bcOps ++ quadOps ++ asmOps ++ polyOps ++ integrationOps ++ meshioOps ++ conformityOps
+  bcOps ++ quadOps ++ asmOps ++ polyOps ++ integrationOps ++ meshioOps ++ conformityOps ++ surgeryOps
 
 end Drv
